@@ -250,7 +250,7 @@ func init() {
 				gen(nil, n)
 			}
 			temporals := c15TemporalTexts()
-			elems := lib.ElementPool()
+			elems := append(append([]lib.Val{}, lib.ElementPool()...), c15ExtraElements()...)
 			return []core.Sub{
 				{Name: "string-literals", N: len(seqs), Note: fmt.Sprintf("prefix of <=2 symbols x all continuations up to length %d over 24 symbols", maxLen), Run: func(i int, r *core.Rec) {
 					prefix := seqs[i]
@@ -602,6 +602,47 @@ func decClass(d string) string {
 	return c
 }
 
+// c15ExtraElements: date elements that carry a time zone (the midnight of the date in that zone), and
+// microsecond instants / dateTimes; the System value has to denote the same calendar date / millisecond.
+func c15ExtraElements() []lib.Val {
+	var out []lib.Val
+	mk := func(id, kind, class, rkind, text string, v any) {
+		t, ok := lib.ParseRefT(rkind, text)
+		if !ok {
+			panic("c15 extra element " + text)
+		}
+		out = append(out, lib.Val{ID: id, V: v, Kind: "fhir." + kind, Class: class, RKind: "temporal", RT: t})
+	}
+	for _, z := range []struct {
+		name string
+		secs int
+	}{{"+02:00", 7200}, {"+14:00", 14 * 3600}, {"+00:30", 1800}, {"-05:00", -5 * 3600}, {"-11:30", -(11*3600 + 1800)}} {
+		loc := time.FixedZone("", z.secs)
+		for _, p := range []struct {
+			text    string
+			prec    dtpb.Date_Precision
+			y, m, d int
+		}{{"2020-01-01", dtpb.Date_DAY, 2020, 1, 1}, {"2020-03", dtpb.Date_MONTH, 2020, 3, 1}, {"2020", dtpb.Date_YEAR, 2020, 1, 1}} {
+			us := time.Date(p.y, time.Month(p.m), p.d, 0, 0, 0, 0, loc).UnixMicro()
+			mk("f.date."+p.text+z.name, "date", "fhir.date.tz", "Date", p.text, &dtpb.Date{ValueUs: us, Timezone: z.name, Precision: p.prec})
+			var dp dtpb.DateTime_Precision
+			switch p.prec {
+			case dtpb.Date_DAY:
+				dp = dtpb.DateTime_DAY
+			case dtpb.Date_MONTH:
+				dp = dtpb.DateTime_MONTH
+			default:
+				dp = dtpb.DateTime_YEAR
+			}
+			mk("f.dt."+p.text+z.name, "dateTime", "fhir.datetime.partial.tz", "DateTime", p.text+"T", &dtpb.DateTime{ValueUs: us, Timezone: z.name, Precision: dp})
+		}
+	}
+	mk("f.instant.us", "instant", "fhir.instant.us", "DateTime", "2019-01-02T01:02:03.123Z", lib.ProtoInstant("2019-01-02T01:02:03.123456Z"))
+	mk("f.instant.us.off", "instant", "fhir.instant.us", "DateTime", "2019-12-31T23:59:59.999-11:00", lib.ProtoInstant("2019-12-31T23:59:59.999999-11:00"))
+	mk("f.dt.us", "dateTime", "fhir.datetime.us", "DateTime", "2019-01-02T01:02:03.000+05:30", lib.ProtoDateTime("2019-01-02T01:02:03.000120+05:30"))
+	return out
+}
+
 // c15ProtoRoundTrip: system.From(element) denotes the element's value; System -> proto -> System is the identity.
 func c15ProtoRoundTrip(r *core.Rec, e lib.Val) {
 	msg, ok := e.V.(proto.Message)
@@ -646,6 +687,26 @@ func c15ProtoRoundTrip(r *core.Rec, e lib.Val) {
 		}
 		if e.RT.Kind == "Time" {
 			str = "T" + str
+		}
+		// the value is the value it prints: re-parsing its own string gives an equal value (nothing hidden below the layout)
+		var reparsed system.Any
+		var perr error
+		switch e.RT.Kind {
+		case "Date":
+			reparsed, perr = system.ParseDate(strings.TrimPrefix(str, "@"))
+		case "DateTime":
+			reparsed, perr = system.ParseDateTime(str)
+		case "Time":
+			reparsed, perr = system.ParseTime(strings.TrimPrefix(str, "T"))
+		}
+		if perr == nil && reparsed != nil {
+			if eq, okc := sv.(interface {
+				TryEqual(system.Any) (bool, bool)
+			}); okc {
+				if same, def := eq.TryEqual(reparsed); !(same && def) {
+					r.Fail("system.From|"+e.Kind+"|"+e.Class+"|value-is-not-equal-to-what-it-prints", core.W{"element": e.ID, "prints": str})
+				}
+			}
 		}
 		got, okp := lib.ParseRefT(e.RT.Kind, str)
 		if !okp {
